@@ -71,6 +71,14 @@ def c11_routing_dispatch(ctx, v):
     ex.pure = [r".*"]
     msg = ex.fresh_value("Message", "message")
     rt = S.Opaque("routing_thread", "RoutingThread")
+    # the answer of the key-list intake is peer-drivable: Err when the peer exceeds its rate limit
+    kl = S.EnumV("Result<(), std::io::Error>", None, S.I(z3.BitVec("key_list_update_result.discr", 64), True))
+
+    def hook(ex_, st_, callee, args, dty):
+        if re.search(r"Network::handle_received_key_list$", callee):
+            return S.Agg("struct", "ReadyFuture", [kl])
+        return None
+    ex.on_call = hook
     st = S.State()
     st.pc.append(L.enum_in_range(msg, 15))
     body, co = L.coroutine(ctx, ex, r"routing_thread::<impl at [^>]*>::process_incoming_message", [S.Ref(S.Cell(rt), (), True), ex.fresh_value("u64", "peer_index"), msg])
